@@ -26,14 +26,17 @@ def is_ip(v):
         return False
 
 
-def make_req(idents, ca=None, account_kt=None, script=None, tag=None):
+def make_req(idents, ca=None, account_kt=None, script=None, tag=None, leading_zero=None):
     """idents: list of (value, challenge)"""
     ids = []
     for v, c in idents:
         ids.append({("ip" if is_ip(v) else "dns"): v, "challenge": c})
     doc = cfg.base_doc(identifiers=ids, account_extra={"key_type": account_kt} if account_kt else None)
     req = cfg.scenario(doc, cas=[ca or {}], script=script or [])
-    req["meta"] = {"idents": [list(x) for x in idents], "ca": ca or {}, "kt": account_kt, "tag": tag}
+    if leading_zero:
+        # an account key whose public coordinate has a leading zero byte (the thumbprint needs fixed-width coordinates)
+        req["phases"][0]["pre"] = [{"op": "install_account", "name": "acc0", "key_type": account_kt, "leading_zero": leading_zero}]
+    req["meta"] = {"idents": [list(x) for x in idents], "ca": ca or {}, "kt": "%s%s" % (account_kt, ("/zero-" + leading_zero) if leading_zero else "") if account_kt else None, "tag": tag}
     return req
 
 
@@ -169,6 +172,10 @@ def run(ctx):
             reqs.append(make_req(S, ca={"token_shape": ts}, tag="token"))
         for kt in KEY_TYPES:
             reqs.append(make_req(S, account_kt=kt, tag="keytype"))
+        if S is S2:
+            for kt in ["ecdsa-p256", "ecdsa-p384", "ecdsa-p521"]:
+                for coord in ("x", "y"):
+                    reqs.append(make_req(S, account_kt=kt, tag="keyshape", leading_zero=coord))
         for nth in range(len(S)):
             reqs.append(make_req(S, script=[{"kind": "hook", "tag_prefix": "chal-", "nth_hook": nth, "answer": "exit:1"}], tag="hook-exit"))
     # hook-exit scripts need the index of the nth challenge hook: resolve with a dry run
